@@ -159,7 +159,7 @@ def correspondence(ctx, model_ok=True):
     sweeps = sweep_programs()
     if not ctx.thorough:
         sweeps = [p for p in sweeps if not p[0].startswith("natives3:")]
-    gen = progs.generated(rng, ["expr", "control", "classes", "fibers", "exceptions", "iteration", "data"], 1500 if ctx.thorough else 210)
+    gen = progs.generated(rng, ["expr", "control", "classes", "fibers", "exceptions", "iteration", "data", "typed", "typed-try"], 1800 if ctx.thorough else 270)
     plist = [(n, s, {}) for n, s in sweeps] + [(n, s, m) for n, s, m, _ in gen]
     known = KNOWN
     builds = [("release", ctx.runner, {"gc": "default"})]
